@@ -4,7 +4,7 @@ lattice around them (-1 ms, -few us, 0, +few us, +1 ms)."""
 
 LATTICE = [-1000, -3, -2, -1, 0, 1, 2, 3, 1000]
 LIFETIMES = [5, 10, 20, 50, 100, 400, 20, 50, 100, 400, 1, 0]
-REPRS = ['uri', 'strlist', 'bytes', 'bytearray', 'memoryview', 'mixed', 'wire', 'wire_mv']
+REPRS = ['uri', 'strlist', 'bytes', 'bytearray', 'memoryview', 'mixed', 'wire', 'wire_mv', 'ro_mv_ba', 'wire_ro_mv_ba']
 NACK_REASONS = [0, 50, 100, 150, 151, 255, 256, 65535, 65536, 2 ** 32 - 1, 2 ** 32, 2 ** 64 - 1, 'none']       # 'none': a Nack header without NackReason element = reason None (0)
 RESET_KINDS = ['reset', 'reset', 'timeout', 'abort', 'pipe', 'unreach']      # how a stream dies when it is not a clean EOF
 V2_VERDICTS = ['PASS', 'ALLOW_BYPASS', 'FAIL', 'SILENCE', 'TIMEOUT']
